@@ -225,7 +225,7 @@ theorem match_text (k : Kind) (r : Str → Bool) (s : Str) (is : List Item) (X :
     matchItems k r (.base (.text s) :: is) (lex k s ++ X) = matchItems k r is X := by
   simp [matchItems, match0, dropPrefix_append]
 
-theorem match_chain (k : Kind) (r : Str → Bool) (ns : List Name) (sch : Option Str) (names : List Str)
+theorem match_chain (k : Kind) (r : Str → Bool) (ns : List Name) (sch : List Str) (names : List Str)
     (is : List Item) (X : List Tok) (hne : ns ≠ []) (hX : noDot X) (hok : refOk sch names (ns.map (·.s)) = true) :
     matchItems k r (.base (.ref sch names) :: is) (dotToks (ns.map (nameTok k r)) ++ X) = matchItems k r is X := by
   simp [matchItems, match0, chain_dotToks k r ns X hne hX, hok]
